@@ -434,7 +434,7 @@ def gen_p(rng):
 
 
 def generate(rng, tier, shard, nshards):
-    total = 4800 if tier == 'quick' else 320000
+    total = 8000 if tier == 'quick' else 320000
     n = max(50, total // max(1, nshards))
     for i in range(n):
         p = gen_p(rng)
